@@ -233,10 +233,14 @@ EXT_IDENTITY_DECORATORS = {"wraps", "lru_cache", "total_ordering", "abstractmeth
 
 
 class Model:
-    def __init__(self, root=None, sources=None):
+    def __init__(self, root=None, sources=None, canon_level=0):
         """`sources`: optional dict modname -> (path, source text) overriding/adding to what is on disk
-        (used by the in-memory mutation tier); otherwise reads every *.py below root/uberjob."""
+        (used by the in-memory mutation tier); otherwise reads every *.py below root/uberjob.
+        `canon_level`: 0 = the trees as parsed; >0 = after the semantics-preserving canonicalisation passes of
+        canon.py (an equivalent program in the shape the rules know)."""
         self.root = (root or SRC_ROOT).rstrip("/")
+        self.canon_level = canon_level
+        self.canon_log = []
         self.modules = {}
         self.funcs = {}
         self.classes = {}
@@ -278,12 +282,17 @@ class Model:
             for name, (path, text) in sources.items():
                 is_pkg = path.endswith("__init__.py")
                 found[name] = (path, text, is_pkg)
+        trees = {}
         for name, (path, text, is_pkg) in sorted(found.items()):
             try:
-                tree = ast.parse(text, filename=path)
+                trees[name] = ast.parse(text, filename=path)
             except SyntaxError as e:
                 raise AnalysisError(f"{path} does not parse: {e}")
-            self.modules[name] = Module(name, path, text, tree, is_pkg)
+        if self.canon_level:
+            from . import canon
+            self.canon_log = canon.canonicalise(trees, self.canon_level, canon.load_known_funcs())
+        for name, (path, text, is_pkg) in sorted(found.items()):
+            self.modules[name] = Module(name, path, text, trees[name], is_pkg)
             self.files += 1
 
     def _index(self):
